@@ -188,7 +188,7 @@ func genC17(rt *rapid.T) C17Case {
 		c.Env["XDG_CONFIG_HOME"] = "relative/dir"
 	}
 	c.NoHome = rapid.IntRange(0, 9).Draw(rt, "nohome") == 0
-	c.Steps = rapid.SliceOfN(rapid.Custom(func(rt *rapid.T) C17Step { return genC17Step(rt, &c) }), 1, 8).Draw(rt, "steps")
+	c.Steps = rapid.SliceOfN(rapid.Custom(func(rt *rapid.T) C17Step { return genC17Step(rt, &c) }), 1, tierN(8, 20)).Draw(rt, "steps")
 	return c
 }
 
